@@ -40,4 +40,117 @@ theorem proxyGate_args (d r : Option Str) (b : Option (List Arg)) :
     | none => rfl
     | some l => cases l <;> rfl
 
+/-! ### interface selection of `notifyOnSignal` -/
+
+/-- An interface passes the `interface=` filter. -/
+def passes (req : Option Str) (i : IfaceDecl) : Prop := strTruthy req = true → req = some i.name
+
+theorem passes_iff (req : Option Str) (i : IfaceDecl) :
+    (strTruthy req && !(some i.name == req)) = false ↔ passes req i := by
+  unfold passes
+  cases strTruthy req
+  · simp
+  · simp only [Bool.true_and, Bool.not_eq_false', beq_iff_eq, forall_const]
+    constructor <;> intro h <;> exact h.symm
+
+/-- What `notifyOnSignal` selects is declared: an interface of the proxy that passes the filter and
+declares the signal with that signature - and it is the first such interface. -/
+theorem selectSignal_some (name : Str) (req : Option Str) (ifs : List IfaceDecl) (n sg : Str)
+    (h : selectSignal name req ifs = some (n, sg)) :
+    ∃ pre i post, ifs = pre ++ i :: post ∧ i.name = n ∧ i.signals.lookup name = some sg ∧ passes req i
+      ∧ ∀ j ∈ pre, ¬ (passes req j ∧ (j.signals.lookup name).isSome) := by
+  induction ifs with
+  | nil => simp [selectSignal] at h
+  | cons i rest ih =>
+    unfold selectSignal at h
+    cases hp : (strTruthy req && !(some i.name == req)) with
+    | true =>
+      rw [hp] at h
+      simp only [if_true] at h
+      obtain ⟨pre, x, post, h1, h2, h3, h4, h5⟩ := ih h
+      refine ⟨i :: pre, x, post, by simp [h1], h2, h3, h4, ?_⟩
+      intro j hj
+      simp only [List.mem_cons] at hj
+      cases hj with
+      | inl e =>
+        subst e
+        intro hh
+        have := (passes_iff req j).mpr hh.1
+        rw [hp] at this; cases this
+      | inr e => exact h5 j e
+    | false =>
+      rw [hp] at h
+      simp only [Bool.false_eq_true, if_false] at h
+      have hpass := (passes_iff req i).mp hp
+      cases hl : i.signals.lookup name with
+      | some s' =>
+        rw [hl] at h
+        simp only [Option.some.injEq, Prod.mk.injEq] at h
+        refine ⟨[], i, rest, rfl, h.1, by rw [hl, h.2], hpass, by simp⟩
+      | none =>
+        rw [hl] at h
+        obtain ⟨pre, x, post, h1, h2, h3, h4, h5⟩ := ih h
+        refine ⟨i :: pre, x, post, by simp [h1], h2, h3, h4, ?_⟩
+        intro j hj
+        simp only [List.mem_cons] at hj
+        cases hj with
+        | inl e => subst e; intro hh; rw [hl] at hh; simp at hh
+        | inr e => exact h5 j e
+
+/-- `AttributeError` exactly when no interface that passes the filter declares the signal. -/
+theorem selectSignal_none (name : Str) (req : Option Str) (ifs : List IfaceDecl) :
+    selectSignal name req ifs = none ↔ ∀ i ∈ ifs, ¬ (passes req i ∧ (i.signals.lookup name).isSome) := by
+  induction ifs with
+  | nil => simp [selectSignal]
+  | cons i rest ih =>
+    unfold selectSignal
+    cases hp : (strTruthy req && !(some i.name == req)) with
+    | true =>
+      simp only [if_true, ih, List.mem_cons, forall_eq_or_imp]
+      constructor
+      · intro h
+        refine ⟨?_, h⟩
+        intro hh
+        have := (passes_iff req i).mpr hh.1
+        rw [hp] at this; cases this
+      · intro h; exact h.2
+    | false =>
+      have hpass := (passes_iff req i).mp hp
+      simp only [Bool.false_eq_true, if_false, List.mem_cons, forall_eq_or_imp]
+      cases hl : i.signals.lookup name with
+      | some s' => simp [hpass]
+      | none => simp [ih]
+
+/-! ### `_signalRules` -/
+
+theorem onOk_mem (p : ProxySubs) (id j : Nat) : j ∈ (p.onOk id).rules ↔ j = id ∨ j ∈ p.rules := by
+  unfold ProxySubs.onOk
+  by_cases h : p.rules.contains id = true
+  · simp only [h, if_true]
+    constructor
+    · intro hj; exact Or.inr hj
+    · intro hj
+      cases hj with
+      | inl e => subst e; exact List.contains_iff_mem.mp h
+      | inr e => exact e
+  · have hm : id ∉ p.rules := fun e => h (List.contains_iff_mem.mpr e)
+    simp [hm]
+
+/-- `cancelSignalNotification(id)` calls `delMatch(id)` iff `id` is a current subscription of this proxy;
+afterwards `id` is no subscription any more and every other subscription is untouched. -/
+theorem cancel_spec (p : ProxySubs) (id : Nat) :
+    ((p.cancel id).2 = if id ∈ p.rules then some id else none)
+    ∧ id ∉ (p.cancel id).1.rules
+    ∧ ∀ j, j ≠ id → (j ∈ (p.cancel id).1.rules ↔ j ∈ p.rules) := by
+  unfold ProxySubs.cancel
+  by_cases h : p.rules.contains id = true
+  · have hm : id ∈ p.rules := List.contains_iff_mem.mp h
+    simp only [h, if_true, hm]
+    refine ⟨trivial, ?_, ?_⟩
+    · simp [List.mem_filter]
+    · intro j hj; simp [List.mem_filter, hj]
+  · have hm : id ∉ p.rules := fun e => h (List.contains_iff_mem.mpr e)
+    simp only [h, hm, if_false]
+    exact ⟨rfl, hm, fun j _ => Iff.rfl⟩
+
 end Txdbus.Route
